@@ -341,3 +341,15 @@ Definition c20_dispatch_row (tenv : env) (e0 : env) (bnd : bool) (rs : list dreq
     forallb (fun o : dobs => view_eqb (snd (fst (fst (fst o)))) (view e0)) obs;
     forallb (fun o : dobs => view_eqb (snd (fst (fst o))) (view e0) && Bool.eqb (snd (fst o)) bnd) obs;
     forallb (fun o : dobs => snd o) obs ].
+
+(* ========================================================================== *)
+(* the process wrapper: exactly one result, exit code 0 iff the payload returned *)
+(* ========================================================================== *)
+Definition c20_procend_row (e : pend) (obs : list (Z * bool)) : list bool :=
+  [ eqb_list (eqb_prod Z.eqb Bool.eqb) (proc_results e) obs ] ++ pad 3 ++
+  [ match obs with [_] => true | _ => false end ] ++ pad 3 ++
+  [ match obs with
+    | [(ret, exc)] => Bool.eqb (ret =? 0) (match e with PReturn => true | _ => false end)
+                      && Bool.eqb exc (negb (ret =? 0))
+    | _ => true
+    end ] ++ pad 3.
